@@ -418,6 +418,10 @@ def check_extend_cli(chk):
 # ------------------------------------------------------------------------------------------- C15
 
 
+# every reaction-type number: two reactions that differ in their type only are different reactions
+ALL_TYPES = [100, 101, 102, 103, 110, 111, 120, 130, 200, 201, 202, 203, 204, 210, 220, 221, 300, 301, 302, 310]
+
+
 def gen_dup_list(rng, tier):
     from naunet.reactiontype import ReactionType as RT
     names = rng.sample(NAMES, rng.randint(2, 6))
@@ -436,13 +440,13 @@ def gen_dup_list(rng, tier):
             if v < 0.15:
                 b["tmin"] = rng.choice([-1.0, 10.0, 100.0])
             elif v < 0.3:
-                b["type"] = rng.choice([100, 101, 102] + ([999] if use_unknown else []))
+                b["type"] = rng.choice(ALL_TYPES + ([999] if use_unknown else []))
             out.append(b)
         else:
             re_ = [rng.choice(names) for _ in range(rng.choice([1, 2, 2, 3]))]
             pr_ = [rng.choice(names) for _ in range(rng.choice([0, 1, 2, 3]))]
             b = {"re": re_, "pr": pr_, "tmin": rng.choice([-1.0, -1.0, 10.0]), "tmax": rng.choice([-1.0, 300.0]),
-                 "type": rng.choice([100, 100, 101] + ([999] if use_unknown and rng.random() < 0.3 else []))}
+                 "type": rng.choice([100, 100, 101] + (ALL_TYPES if rng.random() < 0.3 else []) + ([999] if use_unknown and rng.random() < 0.3 else []))}
             base.append(b)
             out.append(b)
         if out and rng.random() < 0.1:  # runs of repeats
@@ -511,6 +515,7 @@ def run_c15(argv):
         [R(["H", "H"], ["H2"], 100), R(["H", "H"], ["H2"], 100, 10.0), R(["H", "H"], ["H2"], 101), R(["H", "H"], ["H2"], 100)],
         # an untyped reaction (KROME, or type 999 in a native file) followed by its typed copies, and the other way round
         [R(["H", "CO"], ["H2"], 999), R(["CO", "H"], ["H2"], 100)],
+        [R(["H", "CO"], ["H2"], t) for t in ALL_TYPES] + [R(["CO", "H"], ["H2"], t) for t in reversed(ALL_TYPES)],   # every type pair
         [R(["C", "O"], ["CO"], 999), R(["C", "O"], ["CO"], 101), R(["O", "C"], ["CO"], 101), R(["H", "H"], ["H2"], 100), R(["H", "H"], ["H2"], 999)],
     ]
     for n in range(ncases):
@@ -536,8 +541,13 @@ def run_c15(argv):
                                   for i, (r, f) in enumerate(zip(lst, forms))))
             build = lambda: Network(filelist=[str(kf)], fileformats=["kida"])
             chk.hist["from-kida-file"] += 1
-        with silenced():
-            net = build()
+        try:
+            with silenced():
+                net = build()
+        except ValueError as e:
+            chk.violation({"kind": "reaction-type-rejected"}, f"building a network from well-formed reactions raised {type(e).__name__}: {e} "
+                          f"(every number of the native type table denotes its own reaction type)", input=[r["type"] for r in lst][:30])
+            continue
         for mode in (None, "brief", "minimal", "short"):
             with silenced():
                 dupes, dupidx, first = net.find_duplicate_reaction(mode=mode)
